@@ -11,6 +11,12 @@
               H/<i>/<0|1>                           the digest of input i can(not) be computed
               X/<i>/<drop|dup|swap|untag>/<pos>     edit of Input.signatures
               X/<i>/ins/<pos>/<key>   X/<i>/var/<pos>/<v>
+              P/<i>/<ht>/<key,...>                  input i carries third-party signatures for hash type ht (made over the
+                                                    consensus digest for ht, carrying the byte ht), in the order given
+              Q/<i>.<pos>.<ht>,...|-                Transaction.parse(raw with the hash-type byte of serialized signature
+                                                    pos of input i set to ht, ...).verify()
+              C/<i>.<pos>.<ht>,...|-                the inputs rebuilt through Transaction.add_input(keys, signatures=
+                                                    [DER || hash-type byte ...]) (bytes changed likewise), verify()
    answer: observations joined by ' ':  S<code>   V<T|F>/<valid flags>/<matrix>
    vin <keys as 0/1 matrix rows per signature ','-separated> <n keys> <m>   — lib_verify_input (then the loop before fix C02-2) on an explicit table *)
 module BZ = Z
@@ -35,11 +41,19 @@ let input_of_tok t =
        nat_of_int (int_of_string m))
   | _ -> failwith "input"
 
+let patch_of_tok t =
+  match String.split_on_char '.' t with
+  | [i; p; ht] -> ((nat_of_int (int_of_string i), nat_of_int (int_of_string p)), z_of ht)
+  | _ -> failwith "patch"
+
 let op_of_tok t =
   match String.split_on_char '/' t with
   | ["S"; tg; r; f; ks] ->
       OSign ((if tg = "*" then None else Some (nat_of_int (int_of_string tg))), r = "r", f = "f",
              List.map key_of_tok (split ',' ks))
+  | ["P"; i; ht; ks] -> OPlace (nat_of_int (int_of_string i), z_of ht, List.map key_of_tok (split ',' ks))
+  | ["Q"; ps] -> ORoundHt (List.map patch_of_tok (split ',' ps))
+  | ["C"; ps] -> OCtor (List.map patch_of_tok (split ',' ps))
   | ["V"] -> OVerify
   | ["R"] -> ORound
   | ["T"; _name; _arg; es] -> OEpochs (List.map z_of (split ',' es))
